@@ -85,6 +85,38 @@ class Lin:
             return self.len_lin(t[1])          # length-preserving views / copies
         return {self.namer.leaf(("len", t)): 1}
 
+    def view(self, t):
+        """(root, lo, hi): t denotes root[lo..hi] (lo, hi linear forms), following nested indexing / `get` with a range,
+        the halves of split_at and length-preserving views; a value that is not a sub-slice is its own root (0, len)"""
+        t = strip(t)
+        if isinstance(t, tuple) and len(t) == 2 and isinstance(t[1], str) and t[1] in (".some", ".some.*", ".ok", ".ok.*") \
+                and isinstance(t[0], tuple) and t[0] and isinstance(t[0][0], str) and re.search(r"(^|::)get(_mut)?$", t[0][0]):
+            t = ("index",) + tuple(t[0][1:])          # the Some payload of slice.get(range)
+        if isinstance(t, tuple) and len(t) == 2 and t[1] in (".0", ".1") and isinstance(t[0], tuple) and t[0] \
+                and isinstance(t[0][0], str) and re.search(r"split_at(_mut)?$", t[0][0]) and len(t[0]) == 3:
+            root, lo, hi = self.view(t[0][1])
+            mid = add(lo, self.lin(t[0][2]))
+            return (root, lo, mid) if t[1] == ".0" else (root, mid, hi)
+        if is_index(t) and isinstance(t[2], tuple):
+            root, lo, hi = self.view(t[1])
+            r = t[2]
+            if r[0] == "Range":
+                return root, add(lo, self.lin(r[1])), add(lo, self.lin(r[2]))
+            if r[0] == "RangeTo":
+                return root, lo, add(lo, self.lin(r[1]))
+            if r[0] == "RangeFrom":
+                return root, add(lo, self.lin(r[1])), hi
+            if r[0] == "RangeFull":
+                return root, lo, hi
+            if r[0] == "RangeToInclusive":
+                return root, lo, add(add(lo, self.lin(r[1])), {1: 1})
+            if r[0] == "RangeInclusive::new" and len(r) >= 3:
+                return root, add(lo, self.lin(r[1])), add(add(lo, self.lin(r[2])), {1: 1})
+        if isinstance(t, tuple) and len(t) == 2 and isinstance(t[0], str) and \
+                re.search(r"(^|::)(as_slice|as_mut_slice|as_ref|deref|deref_mut)$", t[0]):
+            return self.view(t[1])
+        return t, {}, self.len_lin(t)
+
     def lin(self, t):
         if isinstance(t, bool):
             return {1: int(t)} if t else {}
@@ -342,6 +374,9 @@ class Walker:
                     on_call(self, e, args)
             elif e[0] == "assert":
                 self.assertion(e, pos)
+            elif e[0] == "array-len":
+                ln = self.L.len_lin(C.expr_of(pa, "top:" + e[1], 0, pos + 1))
+                self.facts.extend([add(ln, {1: -e[2]}), add({1: e[2]}, ln, -1)])
             elif e[0] in ("write", "write-elem") and len(e) > 3:
                 self.arith(C.expr_of(pa, e[3], 0, pos))
         if with_ret:
